@@ -1,1 +1,299 @@
-import EventppVerif.CL.Machine
+import EventppVerif.CL.PropAux
+import EventppVerif.Properties.C02
+/-
+  Property C01 — CallbackList invokes exactly the current callbacks, once each, in list order.
+
+  "For every sequence of append, prepend, insert and remove calls on a callback list, an
+  invocation calls exactly the callbacks that were added and not yet removed, each exactly once,
+  in list order (append at the back, prepend at the front, insert immediately before the
+  referenced callback, or at the back when that callback is no longer in the list), and passes
+  every callback the invocation's arguments.  remove returns true exactly when it took a callback
+  out of the list, and empty, forEach, forEachIf, ownsHandle always describe that same content."
+
+  Model: the pointer-level machine `MCfg` (CL/Model.lean, CL/Machine.lean).
+  Spec: the list machine `SCfg`; a callback list is a `List Entry` (`SList`, CL/Spec.lean) whose
+  order is the invocation order.
+
+  The statement is split in three layers:
+  * `C01_refines`, `C01_results`, `C01_model_queries`: the Model does what the Spec does (same
+    calls, same results of every operation, same content), for every program;
+  * `C01_spec_invoke` / `C01_spec_enum` / `C01_spec_enum_stop` and their Model versions
+    `C01_model_invoke` / `C01_model_enum` / `C01_model_enum_stop`: what one invocation
+    (`operator()`, `forEach`) or verdict-honouring enumeration (`forEachIf`) does: it calls the
+    entries of the list, each once, in list order, with the invocation's argument;
+  * the operation laws `C01_append` … `C01_remove_absent`: what the list is after each operation.
+-/
+namespace Evp
+
+/-! ### the Model does what the Spec does -/
+
+/-- The behaviour table in which no callback does anything. -/
+def flatBeh : Beh := fun _ _ => .ret true
+
+/-- **C01 (refinement).** Callbacks that do nothing: for every program `p` (any sequence of
+    append / prepend / insert / remove / invoke / forEachIf / ownsHandle / empty / copy / move /
+    swap, each chosen depending on every earlier result), every pair of related start states (in
+    particular the empty worlds, `C02_init`) and every number `n` of steps during which no
+    generation counter wraps (the wrap is C19), the pointer Model and the list Spec produce the same
+    trace (every callback call with list, handle, callback, argument; every operation result), the
+    same halted / not halted outcome, related final states, and the Model's `head`/`next` chain of
+    every list is the Spec's list. -/
+theorem C01_refines (n : Nat) (m : MCfg) (s : SCfg) (h : Sim m s)
+    (nowrap : (MCfg.runN flatBeh n m).1.wraps = m.wraps) :
+    Sim (MCfg.runN flatBeh n m).1 (SCfg.runN flatBeh n s).1 ∧
+    (MCfg.runN flatBeh n m).1.trace = (SCfg.runN flatBeh n s).1.trace ∧
+    (MCfg.runN flatBeh n m).2 = (SCfg.runN flatBeh n s).2 ∧
+    ∀ l, chainOf ((MCfg.runN flatBeh n m).1.lists l).heap ((MCfg.runN flatBeh n m).1.nextId + 1)
+        ((MCfg.runN flatBeh n m).1.lists l).head = ((SCfg.runN flatBeh n s).1.lists l).ids := by
+  have := C02_simulation flatBeh n m s h nowrap
+  exact ⟨this.1, this.2.1, this.2.2, fun l => (C02_content this.1 l).1⟩
+
+/-- **C01 (results).** In related states every operation other than an invocation returns the
+    same result in the Model and in the Spec: the handle of `append`/`prepend`/`insert`, the
+    `bool` of `remove`, `ownsHandle`, `empty`.  (`ms`/`ss` are the stacks under the running
+    program; they only matter for the "list is being traversed" test of copy/move/swap.) -/
+theorem C01_results {m : MCfg} {s : SCfg} {ms ss} (h : SimOn m s ms ss) (cmd : Cmd) :
+    (m.apply (busyOn MFrame.isIterOn ms) cmd).2 = (s.apply (busyOn SFrame.isIterOn ss) cmd).2 :=
+  (sim_apply h cmd).1
+
+/-- **C01 (queries).** In related states `ownsHandle` and `empty` of the pointer Model (the
+    `while(node->previous)` walk compared with `head`; `head == nullptr`) answer exactly "is the
+    handle in the list" / "is the list empty" of the Spec, for every list `l` and handle `h`
+    (issued, removed or never issued). -/
+theorem C01_model_queries {m : MCfg} {s : SCfg} (h : Sim m s) (l : Nat) (hd : Hd) :
+    (m.lists l).owns (m.nextId + 1) hd = (s.lists l).present hd ∧
+    (m.lists l).isEmpty = (s.lists l).isEmpty :=
+  ⟨rep_owns (h.rep l) hd, rep_isEmpty (h.rep l)⟩
+
+/-! ### one invocation, Spec machine -/
+
+/-- **C01 (invoke, Spec).** From any Spec configuration `c` whose running program is about to
+    `invoke l arg` (continuation `k`, anything `rest` below), if every callback of list `l`
+    returns immediately when called with `arg` (any verdict — `operator()` ignores it): after
+    exactly `length + 1` steps the program continues with `k .unit`, nothing but the trace and the
+    stack changed, and the trace grew by exactly one call per entry of the list — list `l`, the
+    entry's handle, its callback, the argument `arg` — in list order (the trace is newest first,
+    hence the `reverse`), followed by the result `unit`. -/
+theorem C01_spec_invoke (beh : Beh) (c : SCfg) (l arg : Nat) (k : Res → Prog) (rest : List SFrame)
+    (hst : c.stack = .prog (.op (.invoke l arg) k) :: rest)
+    (hb : ∀ e ∈ c.lists l, ∀ n, ∃ v, beh ⟨l, e.id, e.cb, arg, false⟩ n = .ret v) :
+    SCfg.runN beh ((c.lists l).length + 1) c =
+      ({ c with stack := .prog (k .unit) :: rest,
+                trace := .res .unit :: ((callsOf l arg false (c.lists l)).reverse ++ c.trace) }, false) :=
+  spec_invoke_all beh c l arg k rest hst hb
+
+/-- **C01 (forEachIf completes, Spec).** Same for the verdict-honouring enumeration when every
+    callback of the list returns `true`: every entry is visited once in list order and the result
+    is `true`. -/
+theorem C01_spec_enum (beh : Beh) (c : SCfg) (l arg : Nat) (k : Res → Prog) (rest : List SFrame)
+    (hst : c.stack = .prog (.op (.enum l arg) k) :: rest)
+    (hb : ∀ e ∈ c.lists l, ∀ n, beh ⟨l, e.id, e.cb, arg, true⟩ n = .ret true) :
+    SCfg.runN beh ((c.lists l).length + 1) c =
+      ({ c with stack := .prog (k (.bool true)) :: rest,
+                trace := .res (.bool true) :: ((callsOf l arg true (c.lists l)).reverse ++ c.trace) }, false) :=
+  spec_enum_all beh c l arg k rest hst hb
+
+/-- **C01 (forEachIf stops, Spec).** If the list is `P ++ e :: Q`, the entries of `P` answer `true`
+    and `e` answers `false`: exactly the entries of `P` and then `e` are visited (each once, in
+    order), nothing of `Q` is, and the result is `false`. -/
+theorem C01_spec_enum_stop (beh : Beh) (c : SCfg) (l arg : Nat) (k : Res → Prog) (rest : List SFrame)
+    (P : List Entry) (e : Entry) (Q : List Entry)
+    (hst : c.stack = .prog (.op (.enum l arg) k) :: rest)
+    (hl : c.lists l = P ++ e :: Q)
+    (hb : ∀ x ∈ P, ∀ n, beh ⟨l, x.id, x.cb, arg, true⟩ n = .ret true)
+    (he : ∀ n, beh ⟨l, e.id, e.cb, arg, true⟩ n = .ret false) :
+    SCfg.runN beh (P.length + 2) c =
+      ({ c with stack := .prog (k (.bool false)) :: rest,
+                trace := .res (.bool false) :: ((callsOf l arg true (P ++ [e])).reverse ++ c.trace) }, false) :=
+  spec_enum_stop beh c l arg k rest P e Q hst hl hb he
+
+/-- **C01 (exactly once).** In the calls of one invocation of a list without duplicate handles
+    (every list of a state related to a Model state: `(h.rep l).wf.nodup`), handle `h` is called
+    once if it is in the list and not at all otherwise. -/
+theorem C01_once (l arg : Nat) (ho : Bool) (L : SList) (hnd : L.ids.Nodup) (h : Hd) :
+    callsOfHandle (callsOf l arg ho L) l h = if L.present h then 1 else 0 :=
+  callsOfHandle_callsOf l arg ho h L hnd
+
+/-- every list of a Spec state that is related to a Model state has pairwise distinct handles -/
+theorem C01_nodup {m : MCfg} {s : SCfg} (h : Sim m s) (l : Nat) : (s.lists l).ids.Nodup :=
+  (h.rep l).wf.nodup
+
+/-! ### one invocation, Model machine -/
+
+/-- **C01 (invoke, Model).** The pointer Model, from any state `m` related to a Spec state `s`
+    (every reachable state, C02), about to `invoke l arg`, callbacks returning at once: after
+    `length + 1` steps its trace grew by exactly the calls of the entries of `s.lists l` — which is
+    the Model's own `head`/`next` chain with the stored callbacks (`C02_content`) — each once, in
+    list order, with argument `arg`, then the result; no list object changed, no counter wrapped,
+    and the Model is again related to the Spec state that `C01_spec_invoke` describes. -/
+theorem C01_model_invoke (beh : Beh) {m : MCfg} {s : SCfg} (h : Sim m s) (l arg : Nat)
+    (k : Res → Prog) (mrest : List MFrame)
+    (hst : m.stack = .prog (.op (.invoke l arg) k) :: mrest)
+    (hb : ∀ e ∈ s.lists l, ∀ n, ∃ v, beh ⟨l, e.id, e.cb, arg, false⟩ n = .ret v) :
+    (MCfg.runN beh ((s.lists l).length + 1) m).1.trace =
+      .res .unit :: ((callsOf l arg false (s.lists l)).reverse ++ m.trace) ∧
+    (MCfg.runN beh ((s.lists l).length + 1) m).1.lists = m.lists ∧
+    (MCfg.runN beh ((s.lists l).length + 1) m).1.wraps = m.wraps ∧
+    ∃ srest, s.stack = .prog (.op (.invoke l arg) k) :: srest ∧
+      Sim (MCfg.runN beh ((s.lists l).length + 1) m).1
+        { s with stack := .prog (k .unit) :: srest,
+                 trace := .res .unit :: ((callsOf l arg false (s.lists l)).reverse ++ s.trace) } := by
+  obtain ⟨srest, hs, hw, hl, _, hsim⟩ := model_traverse_prefix beh h l arg false k mrest hst
+    (s.lists l) [] (by simp)
+    (fun e he n => by obtain ⟨v, hv⟩ := hb e he n; exact ⟨v, hv, fun h => by cases h⟩)
+  rw [SCfg.called_done] at hsim
+  exact ⟨by rw [hsim.trace, h.trace]; rfl, hl, hw, srest, hs, hsim⟩
+
+/-- **C01 (forEachIf completes, Model).** -/
+theorem C01_model_enum (beh : Beh) {m : MCfg} {s : SCfg} (h : Sim m s) (l arg : Nat)
+    (k : Res → Prog) (mrest : List MFrame)
+    (hst : m.stack = .prog (.op (.enum l arg) k) :: mrest)
+    (hb : ∀ e ∈ s.lists l, ∀ n, beh ⟨l, e.id, e.cb, arg, true⟩ n = .ret true) :
+    (MCfg.runN beh ((s.lists l).length + 1) m).1.trace =
+      .res (.bool true) :: ((callsOf l arg true (s.lists l)).reverse ++ m.trace) ∧
+    (MCfg.runN beh ((s.lists l).length + 1) m).1.lists = m.lists ∧
+    (MCfg.runN beh ((s.lists l).length + 1) m).1.wraps = m.wraps ∧
+    ∃ srest, s.stack = .prog (.op (.enum l arg) k) :: srest ∧
+      Sim (MCfg.runN beh ((s.lists l).length + 1) m).1
+        { s with stack := .prog (k (.bool true)) :: srest,
+                 trace := .res (.bool true) :: ((callsOf l arg true (s.lists l)).reverse ++ s.trace) } := by
+  obtain ⟨srest, hs, hw, hl, _, hsim⟩ := model_traverse_prefix beh h l arg true k mrest hst
+    (s.lists l) [] (by simp) (fun e he n => ⟨true, hb e he n, fun _ => rfl⟩)
+  rw [SCfg.called_done] at hsim
+  exact ⟨by rw [hsim.trace, h.trace]; rfl, hl, hw, srest, hs, hsim⟩
+
+/-- **C01 (forEachIf stops, Model).** -/
+theorem C01_model_enum_stop (beh : Beh) {m : MCfg} {s : SCfg} (h : Sim m s) (l arg : Nat)
+    (k : Res → Prog) (mrest : List MFrame)
+    (hst : m.stack = .prog (.op (.enum l arg) k) :: mrest)
+    (P : List Entry) (e : Entry) (Q : List Entry) (hl : s.lists l = P ++ e :: Q)
+    (hb : ∀ x ∈ P, ∀ n, beh ⟨l, x.id, x.cb, arg, true⟩ n = .ret true)
+    (he : ∀ n, beh ⟨l, e.id, e.cb, arg, true⟩ n = .ret false) :
+    (MCfg.runN beh (P.length + 2) m).1.trace =
+      .res (.bool false) :: ((callsOf l arg true (P ++ [e])).reverse ++ m.trace) ∧
+    (MCfg.runN beh (P.length + 2) m).1.lists = m.lists ∧
+    (MCfg.runN beh (P.length + 2) m).1.wraps = m.wraps ∧
+    ∃ srest, s.stack = .prog (.op (.enum l arg) k) :: srest ∧
+      Sim (MCfg.runN beh (P.length + 2) m).1
+        { s with stack := .prog (k (.bool false)) :: srest,
+                 trace := .res (.bool false) :: ((callsOf l arg true (P ++ [e])).reverse ++ s.trace) } := by
+  obtain ⟨srest, hs, hw, hls, _, hsim⟩ := model_enum_stop beh h l arg k mrest hst P e Q hl hb he
+  exact ⟨by rw [hsim.trace, h.trace], hls, hw, srest, hs, hsim⟩
+
+/-! ### what the list is after each operation (Spec; the Model follows by `C01_refines`) -/
+
+/-- append puts the new callback at the back -/
+theorem C01_append (L : SList) (id : Hd) (cb : Cb) :
+    L.append id cb = L ++ [⟨id, cb⟩] ∧ (L.append id cb).ids = L.ids ++ [id] ∧
+    ∀ x, (L.append id cb).present x = (L.present x || x == id) :=
+  ⟨rfl, SList.ids_append L id cb, SList.present_append L id cb⟩
+
+/-- prepend puts the new callback at the front -/
+theorem C01_prepend (L : SList) (id : Hd) (cb : Cb) :
+    L.prepend id cb = ⟨id, cb⟩ :: L ∧ (L.prepend id cb).ids = id :: L.ids ∧
+    ∀ x, (L.prepend id cb).present x = (L.present x || x == id) :=
+  ⟨rfl, SList.ids_prepend L id cb, SList.present_prepend L id cb⟩
+
+/-- insert before a callback `x` that is in the list puts the new callback immediately before it
+    (`P` = what is in front of `x`, not containing `x`'s handle; `Q` = what follows) -/
+theorem C01_insert_present (P Q : SList) (x : Entry) (id : Hd) (cb : Cb) (hn : x.id ∉ P.ids) :
+    (P ++ x :: Q).insert id cb x.id = P ++ ⟨id, cb⟩ :: x :: Q :=
+  SList.insert_split id cb hn
+
+/-- the same on handles, for a list with distinct handles -/
+theorem C01_insert_present_ids (L : SList) (P Q : List Hd) (before id : Hd) (cb : Cb)
+    (hnd : L.ids.Nodup) (h : L.ids = P ++ before :: Q) :
+    (L.insert id cb before).ids = P ++ id :: before :: Q :=
+  SList.ids_insert_present id cb hnd h
+
+/-- insert before a handle that is not (or no longer) in the list appends -/
+theorem C01_insert_absent (L : SList) (before id : Hd) (cb : Cb) (h : L.present before = false) :
+    L.insert id cb before = L ++ [⟨id, cb⟩] :=
+  SList.insert_absent id cb h
+
+/-- after insert the list holds what it held, plus the new handle -/
+theorem C01_insert_mem (L : SList) (before id : Hd) (cb : Cb) (x : Hd) :
+    (L.insert id cb before).present x = (L.present x || x == id) :=
+  SList.present_insert L id cb before x
+
+/-- remove returns `true` exactly when the handle was in the list; the list afterwards is the old
+    one without that entry, order kept (and unchanged if the handle was not in it) -/
+theorem C01_remove (L : SList) (h : Hd) :
+    (L.remove h).2 = L.present h ∧
+    (L.remove h).1 = L.filter (fun e => e.id != h) ∧
+    (∀ x, (L.remove h).1.present x = (L.present x && x != h)) ∧
+    (L.ids.Nodup → (L.remove h).1.ids = L.ids.erase h) :=
+  ⟨SList.remove_snd L h, SList.remove_fst L h, SList.present_remove L h, SList.ids_remove L h⟩
+
+/-- remove of a handle that is not in the list changes nothing and returns `false` -/
+theorem C01_remove_absent (L : SList) (h : Hd) (hp : L.present h = false) : L.remove h = (L, false) :=
+  SList.remove_absent L h hp
+
+/-! ### non-vacuity -/
+
+/-- append 10, append 11, prepend 12, insert 13 before handle 1, remove handle 0, remove it again,
+    ownsHandle 0 / 1, empty, invoke with argument 7, forEachIf with argument 8 -/
+def c01Prog : Prog :=
+  .op (.append 0 10) fun _ => .op (.append 0 11) fun _ => .op (.prepend 0 12) fun _ =>
+  .op (.insert 0 13 1) fun _ => .op (.remove 0 0) fun _ => .op (.remove 0 0) fun _ =>
+  .op (.owns 0 0) fun _ => .op (.owns 0 1) fun _ => .op (.empty 0) fun _ =>
+  .op (.invoke 0 7) fun _ => .op (.enum 0 8) fun _ => .ret true
+
+/-- the Model run computed by the kernel: the content is handles `2, 3, 1` (callbacks 12, 13, 11),
+    the invocation calls exactly these in this order with argument 7, `remove` answers `true` then
+    `false`, and the Spec run gives the same trace (so `C01_refines`' hypotheses hold here). -/
+example :
+    let m := (MCfg.runN flatBeh 40 { stack := [.prog c01Prog] }).1
+    let s := (SCfg.runN flatBeh 40 { stack := [.prog c01Prog] }).1
+    m.wraps = 0 ∧ m.trace = s.trace ∧ (s.lists 0).ids = [2, 3, 1] ∧
+    chainOf (m.lists 0).heap 10 (m.lists 0).head = [2, 3, 1] ∧
+    m.trace.reverse =
+      [.res (.handle 0), .res (.handle 1), .res (.handle 2), .res (.handle 3),
+       .res (.bool true), .res (.bool false), .res (.bool false), .res (.bool true), .res (.bool false),
+       .call ⟨0, 2, 12, 7, false⟩, .call ⟨0, 3, 13, 7, false⟩, .call ⟨0, 1, 11, 7, false⟩, .res .unit,
+       .call ⟨0, 2, 12, 8, true⟩, .call ⟨0, 3, 13, 8, true⟩, .call ⟨0, 1, 11, 8, true⟩, .res (.bool true)] := by
+  decide +kernel
+
+/-- the first nine operations of `c01Prog` -/
+def c01Pre : Prog :=
+  .op (.append 0 10) fun _ => .op (.append 0 11) fun _ => .op (.prepend 0 12) fun _ =>
+  .op (.insert 0 13 1) fun _ => .op (.remove 0 0) fun _ => .op (.remove 0 0) fun _ =>
+  .op (.owns 0 0) fun _ => .op (.owns 0 1) fun _ => .op (.empty 0) fun _ => .ret true
+
+/-- the (reachable, non-empty) state after them, about to run `invoke 0 7` -/
+def c01Before : MCfg :=
+  { (MCfg.runN flatBeh 10 { stack := [.prog c01Pre] }).1 with
+    stack := [.prog (.op (.invoke 0 7) fun _ => .ret true)] }
+def c01BeforeS : SCfg :=
+  { (SCfg.runN flatBeh 10 { stack := [.prog c01Pre] }).1 with
+    stack := [.prog (.op (.invoke 0 7) fun _ => .ret true)] }
+
+theorem c01Before_sim : Sim c01Before c01BeforeS :=
+  (C02_simulation flatBeh 10 _ _ (C02_init 1 c01Pre) (by decide +kernel)).1.restack _
+
+/-- the hypotheses of `C01_model_invoke` hold in that state, and its conclusion is the three
+    calls above -/
+example :
+    (MCfg.runN flatBeh 4 c01Before).1.trace =
+      .res .unit :: ([.call ⟨0, 2, 12, 7, false⟩, .call ⟨0, 3, 13, 7, false⟩,
+        .call ⟨0, 1, 11, 7, false⟩].reverse ++ c01Before.trace) := by
+  have hl : c01BeforeS.lists 0 = [⟨2, 12⟩, ⟨3, 13⟩, ⟨1, 11⟩] := by decide +kernel
+  have := (C01_model_invoke flatBeh c01Before_sim 0 7 _ _ rfl (fun _ _ _ => ⟨true, rfl⟩)).1
+  rw [hl] at this
+  simpa [callsOf] using this
+
+/-- `C01_spec_enum_stop` applies to a concrete state: list `[a, b, c]`, `b` answers `false` -/
+example :
+    let beh : Beh := fun c _ => .ret (c.cb != 21)
+    let c : SCfg := { lists := upd {} 0 [⟨0, 20⟩, ⟨1, 21⟩, ⟨2, 22⟩], nextId := 3,
+                      stack := [.prog (.op (.enum 0 5) fun _ => .ret true)] }
+    (SCfg.runN beh 3 c).1.trace =
+      [.res (.bool false), .call ⟨0, 1, 21, 5, true⟩, .call ⟨0, 0, 20, 5, true⟩] := by
+  intro beh c
+  have : SCfg.runN beh 3 c = _ :=
+    C01_spec_enum_stop beh c 0 5 (fun _ => .ret true) [] [⟨0, 20⟩] ⟨1, 21⟩ [⟨2, 22⟩] rfl
+      (by simp [c]) (by intro x hx n; simp at hx; subst hx; rfl) (fun n => rfl)
+  rw [this]
+  rfl
+
+end Evp
